@@ -11,8 +11,8 @@ import (
 	"github.com/ethereum/go-ethereum/common"
 
 	"github.com/EscanBE/evermint/v12/indexer"
-	evertypes "github.com/EscanBE/evermint/v12/types"
 	evmserver "github.com/EscanBE/evermint/v12/server"
+	evertypes "github.com/EscanBE/evermint/v12/types"
 
 	"verifharness/trace"
 )
